@@ -41,6 +41,7 @@ def step(nmax, maxblocks):
         f, blk, pre = _state(r)
         d = Source('data', 'b', n)
         rp = {'kind': 'writes', 'args': {'lengths': [_pre(ev(r)), ev(n)], 'end': None}}
+        core.set_fallback(rp, 'C04/concretised')
         try:
             blk.write(d.rope() if not isinstance(n, int) or n else b'')
         except core.OutOfFuel:
@@ -60,6 +61,7 @@ def fin(how):
         r = sym_int('r', 0, 1012)
         f, blk, pre = _state(r)
         rp = {'kind': 'writes', 'args': {'lengths': [_pre(ev(r))], 'end': how}}
+        core.set_fallback(rp, 'C04/concretised')
         if how == 'finalise':
             blk.finalise()
         elif how == 'seek':
@@ -83,6 +85,7 @@ def history(bounds, maxblocks):
         ns = [sym_int('n%d' % i, 0, b) for i, b in enumerate(bounds)]
         srcs = [Source('d%d' % i, 'b', n) for i, n in enumerate(ns)]
         rp = {'kind': 'writes', 'args': {'lengths': [ev(n) for n in ns], 'end': 'finalise'}}
+        core.set_fallback(rp, 'C04/concretised')
         for s in srcs:
             blk.write(s.rope())
         blk.finalise()
@@ -99,6 +102,7 @@ def oneshot(nmax, maxblocks):
         n = sym_int('n', 0, nmax)
         d = Source('data', 'b', n)
         rp = {'kind': 'oneshot', 'args': {'n': ev(n)}}
+        core.set_fallback(rp, 'C04/concretised')
         fin_ = RopeFile(d.rope())
         fout = RopeFile()
         try:
@@ -140,6 +144,7 @@ def megabyte():
         f = RopeFile()
         blk = m.Block1014(f)
         rp = {'kind': 'writes', 'args': {'lengths': lens, 'end': 'finalise'}}
+        core.set_fallback(rp, 'C04/concretised')
         data = [ref.content(n, i) for i, n in enumerate(lens)]
         with guard('Block1014.write of about a megabyte', 'C04/large-write', rp):
             for d in data:
